@@ -481,3 +481,89 @@ def r7_while_block_cond(text):
         text = text[:mo.start()] + 'loop {' + stmts + '\n if !(' + value + ') { break; }' + text[bo + 1:bc] + '}' + text[bc + 1:]
         fired += 1
     return text, fired
+
+
+def _call_extent(m, start, open_paren):
+    """[a, b): the whole call expression around a match that starts at the callee's name (or the dot in front of it)
+    and whose argument list opens at `open_paren`: the receiver chain to the left (identifiers, `.`, `::`, `?`,
+    balanced `(..)` / `[..]`), and the argument list up to its closing parenthesis."""
+    b = match_close(m, open_paren, '(', ')') + 1
+    i = start
+    # the match may start at the method name: step back over whitespace and the dot in front of it
+    def skip_ws_left(k):
+        while k > 0 and m[k - 1] in ' \t\n':
+            k -= 1
+        return k
+    k = skip_ws_left(i)
+    if i < len(m) and m[i] != '.' and not (k > 0 and m[k - 1] == '.') and not (k > 1 and m[k - 2:k] == '::'):
+        return i, b            # a free function / path call: the match already starts at its beginning
+    if m[i] == '.':
+        k = i
+    while True:
+        # k points just after a '.' or '::' separator (or at the '.' itself): consume the separator
+        if k > 0 and m[k - 1] == '.':
+            k -= 1
+        elif m[k:k + 1] == '.':
+            pass
+        elif k > 1 and m[k - 2:k] == '::':
+            k -= 2
+        k = skip_ws_left(k)
+        # one segment: optional `?`, optional balanced groups, then an identifier (or nothing for a parenthesised expr)
+        while k > 0 and m[k - 1] == '?':
+            k -= 1
+        progressed = False
+        while k > 0 and m[k - 1] in ')]':
+            close = k - 1
+            opener = '(' if m[close] == ')' else '['
+            depth, j = 0, close
+            while j >= 0:
+                if m[j] == m[close]:
+                    depth += 1
+                elif m[j] == opener:
+                    depth -= 1
+                    if depth == 0:
+                        break
+                j -= 1
+            if j < 0:
+                raise AnchorLost('unbalanced receiver expression')
+            k = j
+            progressed = True
+        j = k
+        while j > 0 and (m[j - 1].isalnum() or m[j - 1] == '_'):
+            j -= 1
+        if j < k:
+            k = j
+            progressed = True
+        if not progressed:
+            break
+        k2 = skip_ws_left(k)
+        if k2 > 0 and m[k2 - 1] == '.':
+            k = k2
+            continue
+        if k2 > 1 and m[k2 - 2:k2] == '::':
+            k = k2
+            continue
+        break
+    return k, b
+
+
+def wrap_calls(text, pat, before, after):
+    """Variant rewrites: every call whose callee matches `pat` (a regex ending at the opening parenthesis of the
+    argument list) is replaced by `{ before <the whole call expression> after }`.  Returns (text, number of calls)."""
+    m = mask(text)
+    spans = []
+    for mo in re.finditer(pat, m):
+        op = mo.end() - 1
+        if m[op] != '(':
+            raise AnchorLost('variant pattern must end at the opening parenthesis of the call: %s' % pat)
+        a, b = _call_extent(m, mo.start(), op)
+        if spans and a < spans[-1][1]:
+            continue
+        spans.append((a, b))
+    out, last = [], 0
+    for (a, b) in spans:
+        out.append(text[last:a])
+        out.append('{ %slet vx_r = %s; %svx_r }' % (before, text[a:b], after))
+        last = b
+    out.append(text[last:])
+    return ''.join(out), len(spans)
